@@ -470,6 +470,45 @@ def content_expr(expr, parent_vars):
     return f'{idx}|{hx(fbytes(expr.offset, dt))}|{lin}|{quad}'
 
 
+def content_dqm(m):
+    """case starts | linear | per-case lower rows | offset of a DQM, through the public API"""
+    vs = list(m.variables)
+    starts, acc = [], 0
+    for v in vs:
+        starts.append(acc); acc += m.num_cases(v)
+    lin = [x for v in vs for x in m.get_linear(v)]
+    rows = [[] for _ in range(acc)]
+    for i, u in enumerate(vs):
+        for j in range(i):
+            v = vs[j]
+            try:
+                q = m.get_quadratic(u, v)
+            except ValueError:
+                continue      # no interaction between the two variables
+            for (cu, cv), b in q.items():
+                rows[starts[i] + cu].append((starts[j] + cv, b))
+    low = ';'.join('r' + ','.join(f'{cj}:{hx(fbytes(b, np.float64))}' for cj, b in sorted(row)) for row in rows) or '-'
+    return (','.join(map(str, starts)) or '-') + '|' + (','.join(hx(fbytes(x, np.float64)) for x in lin) or '-') + '|' + low + '|' + hx(fbytes(m.offset, np.float64))
+
+
+def npz_members(blob):
+    """(name, descr, shape, raw payload) of every array in an .npz blob, in archive order"""
+    from numpy.lib import format as npf
+    zf = zipfile.ZipFile(io.BytesIO(blob))
+    out = []
+    for name in zf.namelist():
+        f = io.BytesIO(zf.read(name))
+        ver = npf.read_magic(f)
+        shape, fortran, dtype = npf.read_array_header_1_0(f) if ver == (1, 0) else npf.read_array_header_2_0(f)
+        assert not fortran
+        out.append((name[:-4] if name.endswith('.npy') else name, dtype.str, shape, f.read()))
+    return out
+
+
+def wire_members(members):
+    return ';'.join(f"{n}:{d}:{'.'.join(map(str, sh)) or '-'}:{hx(b)}" for n, d, sh, b in members)
+
+
 def vars_text(variables):
     return json.dumps(list(dimod.variables.iter_serialize_variables(variables))).encode('ascii')
 
@@ -527,6 +566,52 @@ def sweep_prefixes(load, judge, data, ks=None, per_load_timeout=10.0):
         else:
             out[k] = f'CRASH:exit {os.WEXITSTATUS(status)}'
         todo = rest[1:]
+    return out
+
+
+def sweep_blobs(load, blobs, per_load_timeout=10.0):
+    """`load(blob)` for every blob of a list, in forked children; returns a list of
+    'ok' | 'e:<class>' | 'CRASH:<signal/exit>' | 'HANG' (robustness sweeps: the result value is not judged)"""
+    out = [None] * len(blobs)
+    start = 0
+    while start < len(blobs):
+        rfd, wfd = os.pipe()
+        sys.stdout.flush(); sys.stderr.flush()
+        pid = os.fork()
+        if pid == 0:
+            os.close(rfd)
+            try:
+                os.dup2(os.open(os.devnull, os.O_WRONLY), 2)
+                signal.signal(signal.SIGALRM, signal.SIG_DFL)
+                for i in range(start, len(blobs)):
+                    signal.setitimer(signal.ITIMER_REAL, per_load_timeout)
+                    try:
+                        load(blobs[i])
+                        res = 'ok'
+                    except MemoryError:
+                        res = 'e:memory'
+                    except Exception as e:  # noqa
+                        res = 'e:' + classify(e)
+                    signal.setitimer(signal.ITIMER_REAL, 0)
+                    os.write(wfd, f'{i} {res}\n'.encode())
+            finally:
+                os._exit(0)
+        os.close(wfd)
+        with os.fdopen(rfd, 'rb') as f:
+            buf = f.read()
+        _, status = os.waitpid(pid, 0)
+        last = start - 1
+        for ln in buf.decode().splitlines():
+            i, _, res = ln.partition(' ')
+            out[int(i)] = res
+            last = int(i)
+        if last + 1 < len(blobs) and out[last + 1] is None:
+            if os.WIFSIGNALED(status):
+                sig = os.WTERMSIG(status)
+                out[last + 1] = 'HANG' if sig == signal.SIGALRM else f'CRASH:signal {sig} ({signal.Signals(sig).name})'
+            else:
+                out[last + 1] = f'CRASH:exit {os.WEXITSTATUS(status)}'
+        start = last + 2
     return out
 
 
